@@ -259,3 +259,83 @@ func ZZ_C14_BIG() {
 		zz.Assert("next-request-parsed-from-first-byte-after-body", consumedAtSecond == len(wire))
 	}
 }
+
+var zzTrailers = []string{
+	"",                        // no trailer
+	"X-T: v\r\n",              // ordinary trailer field
+	"Content-Length: 3\r\n",   // framing field: not allowed in a trailer
+	"X T: v\r\n",              // malformed field name
+	"GET /t?x=: HTTP/1.1\r\n", // a trailer line that reads like a request line
+	"X-T: v\r\nTransfer-Encoding: chunked\r\n", // allowed field followed by a forbidden one
+}
+
+// ZZ_C14_H3: chunked streamed body whose trailer section is ordinary, forbidden, malformed or
+// symbolic; the handler stops after any number of reads. Whatever the server makes of the trailer
+// (accept it, or refuse it and close), nothing but the pipelined sentinel may ever be dispatched
+// as a second request, and the sentinel is parsed from the first byte after the message.
+func ZZ_C14_H3() {
+	sz := zz.Range("size", 1, zz.Param("S", 3))
+	body := zz.Bytes("payload", sz)
+	wire := []byte("POST /b HTTP/1.1\r\nHost: h\r\nTransfer-Encoding: chunked\r\n\r\n")
+	wire = append(wire, byte('0'+sz))
+	wire = append(wire, "\r\n"...)
+	wire = append(wire, body...)
+	wire = append(wire, "\r\n0\r\n"...)
+	tr := zz.Choose("trailer", len(zzTrailers)+1)
+	if tr < len(zzTrailers) {
+		wire = append(wire, zzTrailers[tr]...)
+	} else {
+		// symbolic field name of two bytes (anything but CR, LF), value "v"
+		name := zz.Bytes("trailername", 2)
+		zz.Assume(name[0] != '\r' && name[0] != '\n' && name[1] != '\r' && name[1] != '\n')
+		wire = append(wire, name...)
+		wire = append(wire, ": v\r\n"...)
+	}
+	wire = append(wire, "\r\n"...)
+	wire = append(wire, zzSentinel...)
+	nreads := zz.Range("nreads", 0, zz.Param("R", 3))
+	rsize := []int{1, 16}[zz.Choose("rsize", 2)]
+	frag := zz.Range("frag", 0, 1)
+	nc := zz.NewNetConn(wire)
+	if frag > 0 {
+		nc.Frag = func(rem int) int { return frag }
+	}
+	var got []byte
+	var seen []zzSeen
+	consumedAtSecond := -1
+	core := zzNewCore(func(c context.Context, ctx *app.RequestContext) {
+		s := zzSeen{method: string(ctx.Method()), uri: string(ctx.Request.RequestURI())}
+		seen = append(seen, s)
+		if len(seen) == 1 {
+			r := ctx.RequestBodyStream()
+			for i := 0; i < nreads; i++ {
+				buf := make([]byte, rsize)
+				n, err := r.Read(buf)
+				got = append(got, buf[:n]...)
+				if err != nil {
+					break
+				}
+			}
+		} else if len(seen) == 2 {
+			consumedAtSecond = nc.Pos - ctx.GetConn().Len()
+		}
+		ctx.Response.SetBodyString("r" + s.uri)
+	})
+	s := zzNewServer(core)
+	s.StreamRequestBody = true
+	s.IdleTimeout = 1
+	_ = s.Serve(context.Background(), standard.ZZNewConn(nc))
+	zz.Cover("reached-assert", true)
+	zz.Cover("connection-kept", len(seen) == 2)
+	zz.Cover("connection-closed-after-first", len(seen) == 1)
+	zz.Assert("first-handler-ran", len(seen) >= 1)
+	zz.Assert("bytes-read-are-a-prefix-of-the-body", len(got) <= len(body) && bytes.Equal(got, body[:minInt(len(got), len(body))]))
+	zz.Assert("at-most-the-sentinel-follows", len(seen) <= 2)
+	if len(seen) >= 2 {
+		zz.Assert("next-request-is-the-sentinel", seen[1].method == "GET" && seen[1].uri == "/s")
+		zz.Assert("next-request-parsed-from-first-byte-after-message", consumedAtSecond == len(wire))
+	}
+	if tr <= 1 {
+		zz.Assert("well-formed-trailer-keeps-the-connection", len(seen) == 2)
+	}
+}
